@@ -20,6 +20,14 @@ CHECKS = {
         text='Aggregations (matrix, counter, graph edges, occupancy, atom locations, rates, jump diffusivity) are TLA+ operators over the jump/event tables; TLC checks conservation on the model and judges every recorded API result, with squared minimum-image site distances computed exactly from the integer metric tensor.',
         note='Trusted: TLC; exact-lattice abstraction (sites on a /32 grid, integer metric tensor); scipy CODATA constants for alpha. Transitions.matrix() folding of no-site events is known finding D5.',
         ref='DESIGN.md 8/C05', technique='TLA+ spec Sites.tla + Lattice.tla; TLC model checking + trace validation with exact integer oracle'),
+    'C02': dict(
+        text='Site assignment is specified on an exact integer lattice (metric tensor only, so orientation-free); TLC checks uniqueness / inner-in-outer / translation lemmas exhaustively on a small grid and judges the .states/.inner_states recorded from the real code for 6 cell families x 3 orientations x 4 radius modes with exact minimum-image distances.',
+        note='Trusted: TLC integer arithmetic, exact-lattice abstraction (atoms and sites on a /64 grid; radii with r^2 N^2 away from integers). Generic non-grid floats are only reached through random rotations of the cell.',
+        ref='DESIGN.md 8/C02', technique='TLA+ spec Sites.tla!AssignAtom + Lattice.tla; TLC model checking (MC_Assign) + trace validation (TraceAssign.tla) as exact oracle'),
+    'C12': dict(
+        text='The sorted scan of collective.py is transcribed into TLA+ and TLC proves it equal to the declarative pair definition on every bounded jump table (negative control: the early exit originally coded is refuted); TLC-exported tables are replayed through Collective and random tables in real cells are judged by the trace spec with exact site distances.',
+        note='Trusted: TLC; tables injected through the public Jumps(conversion_method=...) parameter; cut-offs kept 1e-4 away from site distances.',
+        ref='DESIGN.md 8/C12', technique='TLA+ spec Sites.tla (CodePairs vs DeclPairs), MC_Coll with negative control; replay of TLC-exported tables + trace validation (TraceColl.tla)'),
     'C19': dict(
         text='TLC checks on every bounded history and every cut that part jumps are jumps of the whole; recorded split() results of the real code are validated by the trace spec for partition, exactly-once, re-basing and chronology with an offset witness.',
         note='Where part boundaries fall is deliberately not constrained. Trusted: TLC, harness witness search (exhaustive, verified by TLC).',
